@@ -429,7 +429,7 @@ func (fr *frame) enterLoop(li *loopInfo, b *ssa.BasicBlock) {
 		}
 	}
 	// havoc
-	li.hav = &havocProv{tag: fr.tag(fmt.Sprintf("L%d", li.ord)), cache: map[string]string{}, prev: li.entry, startN: u.nfresh}
+	li.hav = &havocProv{tag: fr.tag(fmt.Sprintf("L%d", li.ord)), cache: map[string]string{}, prev: li.entry, startN: u.nfresh, startLine: len(u.lines)}
 	ws := fr.st.ws
 	fr.st = &state{over: map[string]string{}, base: li.hav, ws: ws, u: u}
 	for _, phi := range phis {
